@@ -231,3 +231,6 @@ package closest
 //@   before send#3: assert [c06.fanout] forall(k, 0, nQ, len(sent(QChanArray[k])) == len(recv(cIn)) && forall(t, 0, len(recv(cIn)), sent(QChanArray[k])[t] == recv(cIn)[t]))
 //@   ensures [done.once] len(sent(cSplitDone)) == 1
 //@   ensures [c18.width] implies(len(recv(cIn)) >= 1 && len(recv(cIn)[0].Seq) != len(queries[0].Seq), len(sent(cErr)) == 1)
+
+//@ func Closest spawns
+//@   modifies everything
